@@ -25,20 +25,6 @@ ObsInit ==
     /\ pc = "done" /\ k = 1 /\ ng = 1 /\ present = {} /\ queue = <<>> /\ scheduled = {}
     /\ dropped = {} /\ order = <<>> /\ ai = 1 /\ work = <<>> /\ result = <<>> /\ rolled = FALSE
 
-RwOf(A) == UNION {{[t |-> t, lo |-> a.lo, hi |-> a.hi, new |-> a.new] : a \in RwSet(t)} : t \in A}
-
-NoOverlapIn(A) ==
-    /\ \A t \in A : ~SelfOverlap(t)
-    /\ \A a, b \in RwOf(A) : (a.t # b.t) => ~Overlaps(Rng(a), Rng(b))
-
-\* literal reading of the statement: a drop is justified by ANY transaction with precedence
-JustifiedWrt(t, A) ==
-    \/ SelfOverlap(t)
-    \/ KeyIgnored(t)
-    \/ \E u \in AllKeys : KeyLess(u, t) /\ EqSeq(u) = EqSeq(t)
-    \/ \E u \in AllKeys : KeyLess(u, t) /\
-           \E a \in RwSet(t), b \in RwSet(u) : Overlaps(Rng(a), Rng(b))
-
 \* same-point insertions: their relative order is not fixed by the statement
 RECURSIVE NegPrefix(_)
 NegPrefix(s) == IF s = <<>> \/ Head(s) > 0 THEN 0 ELSE 1 + NegPrefix(Tail(s))
